@@ -26,6 +26,7 @@ pub(crate) struct TCfg {
     pub parked_sb: usize,
     pub tabs_k: usize,        // SYM: Tabs::new(cols); k: any G6 set of k stops
     pub fill: Fill,
+    pub asrow: usize,         // row of the *other* screen's saved cursor, SYM = any inside that screen
 }
 
 pub(crate) const fn cfg(cols: usize, rows: usize) -> TCfg {
@@ -43,6 +44,7 @@ pub(crate) const fn cfg(cols: usize, rows: usize) -> TCfg {
         parked_sb: 0,
         tabs_k: SYM,
         fill: Fill::Sym,
+        asrow: SYM,
     }
 }
 
@@ -137,7 +139,13 @@ pub(crate) fn mk_terminal(c: &TCfg) -> Terminal {
         top_margin: top,
         bottom_margin: bottom,
         saved_ctx: any_saved_ctx(cols, rows),
-        alternate_saved_ctx: any_saved_ctx(cols, parked_rows),
+        alternate_saved_ctx: {
+            let mut x = any_saved_ctx(cols, parked_rows);
+            if c.asrow != SYM {
+                x.cursor_row = c.asrow;
+            }
+            x
+        },
         dirty_lines: mk_dirty(rows, false),
         xtwinops: false,
     }
@@ -1219,19 +1227,21 @@ pub(crate) fn t_charset() {
 
 /// T-print: Print(ch) with the cursor row and margins constants of the instance
 pub(crate) fn t_print(c: TCfg) {
-    t_print_or_rep(c, false)
+    t_print_or_rep(c, u32::MAX)
 }
 
 /// with `rep`: REP with a missing / zero / one count == typing the character left of the cursor once
-pub(crate) fn t_print_or_rep(c: TCfg, rep: bool) {
+pub(crate) fn t_print_or_rep(c: TCfg, rep_arg: u32) {
+    let rep = rep_arg != u32::MAX;
     let mut t = mk_terminal(&c);
     let pre = snap(&t);
     let tw = tab_witness(&t);
     let (cols, rows) = (c.cols, c.rows);
     let (col, row) = (pre.col, pre.row);
-    let rep_n = any_u16();
+    // the count is a constant of the instance (a symbolic count unrolls `print` once per unwinding)
+    let rep_n = if rep { rep_arg as u16 } else { 0 };
     let ch = if rep {
-        assume(col > 0 && rep_n <= 1);
+        assume(col > 0);
         cell_at(&t, pre.len - rows + row, col - 1).char()
     } else {
         let ch = any_char();
@@ -1401,6 +1411,260 @@ pub(crate) fn t_rep(c: TCfg, n: u16) {
     kv_end!();
     forget(a);
     forget(b);
+}
+
+// ------------------------------------------------------------------ family: screen switching (C16, C17)
+
+#[derive(Clone, Copy, PartialEq)]
+pub(crate) enum SwitchOp {
+    Enter1047,
+    Enter1049,
+    Leave1047,
+    Leave1049,
+}
+
+fn one_mode(m: DecMode) -> Vec<DecMode> {
+    let mut v = Vec::with_capacity(1);
+    v.push(m);
+    v
+}
+
+/// A-enter / A-leave / R-switch.  `c.alt` is concrete (which screen is active before), the
+/// parked screen is symbolic (`c.parked_rows` rows, possibly a stale height).
+pub(crate) fn t_switch(c: TCfg, op: SwitchOp) {
+    let mut t = mk_terminal(&c);
+    let pre = snap(&t);
+    let tw = tab_witness(&t);
+    let (cols, rows) = (c.cols, c.rows);
+    use SwitchOp::*;
+    let entering = op == Enter1047 || op == Enter1049;
+    let with_cursor = op == Enter1049 || op == Leave1049;
+    let switches = entering != pre.alt; // enter from primary, leave from alternate
+    let prows = pre.other_rows;
+    let plen = pre.other_len;
+    // witness inside the parked screen (becomes the view when leaving)
+    let pi = any_usize();
+    let pc = any_usize();
+    assume(pi < plen && pc < cols);
+    let parked_cell = b_cell(&t.other_buffer, pi, pc);
+    let parked_mark = b_wrapped(&t.other_buffer, pi);
+    // witness inside the active screen (becomes the parked one when entering)
+    let w = any_wit(pre.len, cols);
+    let act_cell = cell_at(&t, w.i, w.c);
+    let act_mark = mark_at(&t, w.i);
+    let cur_ctx = Ctx {
+        col: if pre.col >= cols { cols - 1 } else { pre.col },
+        row: pre.row,
+        pen: pre.pen,
+        origin: pre.origin,
+        auto_wrap: pre.auto_wrap,
+    };
+    match op {
+        Enter1047 => t.execute(Function::Decset(one_mode(DecMode::AltScreenBuffer))),
+        Enter1049 => t.execute(Function::Decset(one_mode(DecMode::SaveCursorAltScreenBuffer))),
+        Leave1047 => t.execute(Function::Decrst(one_mode(DecMode::AltScreenBuffer))),
+        Leave1049 => t.execute(Function::Decrst(one_mode(DecMode::SaveCursorAltScreenBuffer))),
+    }
+    let s = snap(&t);
+    assert!(s.alt == entering, "[C16] 47/1047/1049 h select the alternate screen, l the primary screen");
+    let clamp = |x: Ctx| Ctx {
+        col: if x.col >= cols { cols - 1 } else { x.col },
+        row: if x.row >= rows { rows - 1 } else { x.row },
+        pen: x.pen,
+        origin: x.origin,
+        auto_wrap: x.auto_wrap,
+    };
+    if switches && entering {
+        // ---- A-enter
+        let saved_primary = if with_cursor { cur_ctx } else { pre.saved };
+        assert!(s.alt_saved == saved_primary, "[C17] the primary screen's saved cursor stays with the primary screen (1049 saves the cursor on entry)");
+        assert!(s.saved == clamp(pre.alt_saved), "[C17] the alternate screen has its own saved cursor");
+        assert!(s.len == rows, "[C13][C16] the alternate screen holds exactly the visible rows");
+        let a = any_wit(rows, cols);
+        assert!(is_blank_with(&cell_at(&t, a.i, a.c), &pre.pen) && !mark_at(&t, a.i), "[C16] every entry presents a blank alternate screen filled with the current pen");
+        // the primary is parked untouched
+        assert!(s.other_len == pre.len && s.other_rows == rows && s.other_trim_needed == pre.trim_needed, "[C16] entering the alternate screen parks the primary with all its lines");
+        assert!(b_cell(&t.other_buffer, w.i, w.c) == act_cell && b_wrapped(&t.other_buffer, w.i) == act_mark, "[C16] entering the alternate screen leaves the primary's rows and scrollback untouched");
+        assert!(s.col == pre.col && s.row == pre.row && s.pending_wrap == pre.pending_wrap, "[C16] entering the alternate screen does not move the cursor");
+        assert!(dl_get(&t.dirty_lines, any_in(0, rows - 1)), "[C15] a screen switch reports every row as changed");
+    } else if switches && !entering {
+        // ---- A-leave (with a possibly stale parked height: R-switch)
+        assert!(s.saved == clamp(pre.alt_saved), "[C17] leaving restores the primary screen's own saved cursor context slot");
+        assert!(s.alt_saved == pre.saved, "[C17] the alternate screen keeps its own saved cursor");
+        // height-only re-synchronisation keeps every surviving line at its absolute index
+        let post_len = s.len;
+        if pi < post_len {
+            assert!(cell_at(&t, pi, pc) == parked_cell, "[C16] on return the primary's lines are exactly what they were (at most cut short below the cursor)");
+            if pi + 1 < post_len || prows <= rows {
+                assert!(mark_at(&t, pi) == parked_mark, "[C16] on return the primary's soft-wrap marks are what they were");
+            }
+        }
+        if prows == rows {
+            assert!(post_len == plen, "[C16] without a resize the primary comes back with all its lines");
+        } else if prows < rows {
+            assert!(post_len >= plen, "[C16] a taller screen drops no line of the primary");
+        } else {
+            assert!(post_len <= plen && post_len + (prows - rows) >= plen, "[C16] a shorter screen drops at most the rows that no longer fit, and only from the bottom");
+        }
+        if with_cursor {
+            let sv = pre.alt_saved;
+            assert!(s.pen == sv.pen && s.origin == sv.origin && s.auto_wrap == sv.auto_wrap && !s.pending_wrap, "[C17][C16] 1049 restores the cursor context saved on entry");
+            assert!(s.col == sv.col, "[C17][C16] 1049 restores the saved column");
+            // same absolute line as at save time
+            assert!((post_len - rows) + s.row == (plen - prows) + sv.row, "[C16][C17] 1049 puts the cursor back on the same line of the primary's text, also after a resize");
+        } else if prows == rows {
+            assert!(s.col == pre.col && s.row == pre.row, "[C16] 47/1047 l leave the cursor where it is");
+        }
+        assert!(dl_get(&t.dirty_lines, any_in(0, rows - 1)), "[C15] a screen switch reports every row as changed");
+    } else {
+        // already on the requested screen: only the cursor context part of 1049 acts
+        assert!(s.other_len == pre.other_len && b_cell(&t.other_buffer, pi, pc) == parked_cell && b_wrapped(&t.other_buffer, pi) == parked_mark, "[C16] the parked screen is untouched");
+        assert!(s.len == pre.len && cell_at(&t, w.i, w.c) == act_cell && mark_at(&t, w.i) == act_mark, "[C16] re-selecting the active screen changes no cell");
+        if op == Enter1049 {
+            assert!(s.saved == cur_ctx && s.alt_saved == pre.alt_saved, "[C17] 1049 h saves the cursor of the active screen");
+        } else if op == Leave1049 {
+            let sv = pre.saved;
+            assert!(s.col == sv.col && s.row == sv.row && s.pen == sv.pen && s.origin == sv.origin && s.auto_wrap == sv.auto_wrap && !s.pending_wrap, "[C17] 1049 l restores the saved cursor of the active screen");
+        } else {
+            assert!(s.saved == pre.saved && s.alt_saved == pre.alt_saved, "[C17] saved cursors are untouched");
+        }
+    }
+    // common frame
+    assert!(s.cols == pre.cols && s.rows == pre.rows, "[C02] the size changes only by resize");
+    assert!(s.insert == pre.insert && s.new_line == pre.new_line && s.app_keys == pre.app_keys && s.visible == pre.visible, "[FR] other modes are unchanged");
+    assert!(s.top == pre.top && s.bottom == pre.bottom, "[FR] margins are unchanged");
+    assert!(s.tabs_len == pre.tabs_len && (pre.tabs_len == 0 || tabs_vec(&t.tabs)[tw.j] == tw.v), "[FR] tab stops are unchanged");
+    assert_inv(&t);
+    kv_cover!(pre.col == cols, "wrap-pending column");
+    kv_cover!(pre.pen.background.is_some(), "pen with a background colour");
+    kv_end!();
+    forget(t);
+}
+
+// ------------------------------------------------------------------ family: save / restore cursor, soft reset (C17)
+
+#[derive(Clone, Copy, PartialEq)]
+pub(crate) enum CtxOp {
+    Decsc,
+    Scosc,
+    Save1048,
+    Decrc,
+    Scorc,
+    Restore1048,
+    Decstr,
+}
+
+pub(crate) fn t_ctx(c: TCfg, op: CtxOp) {
+    let mut t = mk_terminal(&c);
+    let pre = snap(&t);
+    let tw = tab_witness(&t);
+    let cols = c.cols;
+    let w = any_wit(pre.len, cols);
+    let e = resolve(&t, &w, Src::Same, MSrc::Same, pre.len);
+    use CtxOp::*;
+    match op {
+        Decsc => t.execute(Function::Decsc),
+        Scosc => t.execute(Function::Scosc),
+        Save1048 => t.execute(Function::Decset(one_mode(DecMode::SaveCursor))),
+        Decrc => t.execute(Function::Decrc),
+        Scorc => t.execute(Function::Scorc),
+        Restore1048 => t.execute(Function::Decrst(one_mode(DecMode::SaveCursor))),
+        Decstr => t.execute(Function::Decstr),
+    }
+    let s = snap(&t);
+    let mut allow = Allow::default();
+    allow.saved = true;
+    match op {
+        Decsc | Scosc | Save1048 => {
+            let want = Ctx {
+                col: if pre.col >= cols { cols - 1 } else { pre.col },
+                row: pre.row,
+                pen: pre.pen,
+                origin: pre.origin,
+                auto_wrap: pre.auto_wrap,
+            };
+            assert!(s.saved == want, "[C17] saving records exactly the column, row, pen, origin mode and auto-wrap mode in force");
+            assert!(s.alt_saved == pre.alt_saved && s.alt == pre.alt, "[C17] saving touches only the active screen's saved context");
+        }
+        Decrc | Scorc | Restore1048 => {
+            let sv = pre.saved;
+            assert!(s.col == sv.col && s.row == sv.row && !s.pending_wrap, "[C17] restoring re-establishes the saved position");
+            assert!(s.pen == sv.pen && s.origin == sv.origin && s.auto_wrap == sv.auto_wrap, "[C17] restoring re-establishes the saved pen, origin mode and auto-wrap mode");
+            assert!(s.saved == pre.saved && s.alt_saved == pre.alt_saved && s.alt == pre.alt, "[C17] restoring keeps both saved contexts");
+            assert!(s.insert == pre.insert && s.new_line == pre.new_line && s.app_keys == pre.app_keys, "[FR] other modes are unchanged");
+            allow.cursor = true;
+            allow.pen = true;
+            allow.modes = true;
+        }
+        Decstr => {
+            let d = ctx_of(&SavedCtx::default());
+            assert!(s.saved == d, "[C17] soft reset empties the active screen's saved context (restoring then gives the power-on defaults)");
+            assert!(s.alt_saved == pre.alt_saved && s.alt == pre.alt, "[C17] soft reset leaves the other screen's saved context alone");
+            assert!(s.visible && s.top == 0 && s.bottom == c.rows - 1 && !s.insert && !s.origin && s.pen == Pen::default() && !s.g0_drawing && !s.g1_drawing && s.active_charset == 0, "[FR] soft reset restores cursor visibility, margins, insert/origin mode, pen and character sets");
+            assert!(s.col == pre.col && s.row == pre.row && s.auto_wrap == pre.auto_wrap && s.new_line == pre.new_line && s.app_keys == pre.app_keys, "[FR] soft reset keeps the cursor position and the remaining modes");
+            allow.visible = true;
+            allow.margins = true;
+            allow.modes = true;
+            allow.pen = true;
+            allow.charsets = true;
+        }
+    }
+    frame(&pre, &t, &allow, &tw);
+    check_exp!(&t, &w, e, "[FR] saving / restoring the cursor changes no cell", "[FR] saving / restoring the cursor changes no soft-wrap mark");
+    assert_inv(&t);
+    kv_cover!(pre.col == cols, "wrap-pending column");
+    kv_cover!(pre.alt, "alternate screen");
+    kv_cover!(!pre.alt, "primary screen");
+    kv_end!();
+    forget(t);
+}
+
+// ------------------------------------------------------------------ RIS (C19)
+
+/// X-ris: from any InvT state execute(Ris) gives, field by field, Terminal::new((cols, rows), limit)
+pub(crate) fn t_ris(c: TCfg) {
+    let mut t = mk_terminal(&c);
+    let (cols, rows) = (c.cols, c.rows);
+    let pre = snap(&t);
+    t.execute(Function::Ris);
+    let f = Terminal::new((cols, rows), c.limit);
+    let s = snap(&t);
+    let g = snap(&f);
+    assert!(s.cols == g.cols && s.rows == g.rows, "[C19] RIS keeps the current size");
+    assert!(s.col == 0 && s.row == 0 && s.visible && !s.pending_wrap, "[C19] after RIS the cursor is home and visible");
+    assert!(s.pen == Pen::default(), "[C19] after RIS the pen is the default pen");
+    assert!(!s.g0_drawing && !s.g1_drawing && s.active_charset == 0, "[C19] after RIS the character sets are the defaults");
+    assert!(!s.insert && !s.origin && s.auto_wrap && !s.new_line, "[C19] after RIS all modes are reset");
+    assert!(!s.app_keys, "[C19] after RIS the cursor-key mode is reset");
+    assert!(s.top == 0 && s.bottom == rows - 1, "[C19] after RIS the margins span the full screen");
+    let d = ctx_of(&SavedCtx::default());
+    assert!(s.saved == d && s.alt_saved == d, "[C19] after RIS both screens' saved contexts are empty");
+    assert!(!s.alt, "[C19] after RIS the primary screen is showing");
+    assert!(s.len == rows && s.other_len == rows && s.other_rows == rows, "[C19] after RIS the scrollback is empty and both screens have the current size");
+    assert!(!s.trim_needed && !s.other_trim_needed, "[C19] after RIS nothing is pending for trimming");
+    let w = any_wit(rows, cols);
+    assert!(cell_at(&t, w.i, w.c) == Cell::default() && !mark_at(&t, w.i), "[C19] after RIS the primary screen is blank");
+    assert!(b_cell(&t.other_buffer, w.i, w.c) == Cell::default() && !b_wrapped(&t.other_buffer, w.i), "[C19] after RIS the alternate screen is blank");
+    assert!(b_limit(&t.buffer) == b_limit(&f.buffer) && b_limit(&t.other_buffer) == b_limit(&f.other_buffer), "[C19] after RIS the scrollback configuration is that of a fresh terminal");
+    // tabs == Tabs::new(cols)
+    let tv = tabs_vec(&t.tabs);
+    let fv = tabs_vec(&f.tabs);
+    assert!(tv.len() == fv.len(), "[C19] after RIS the tab stops are the defaults");
+    if !fv.is_empty() {
+        let j = any_in(0, fv.len() - 1);
+        assert!(tv[j] == fv[j], "[C19] after RIS the tab stops are the defaults");
+    }
+    let r = any_in(0, rows - 1);
+    assert!(dl_get(&t.dirty_lines, r) && dl_get(&f.dirty_lines, r), "[C19][C15] after RIS every row is reported as changed, as for a fresh terminal");
+    assert!(dl_len(&t.dirty_lines) == rows, "[C02] one changed-line flag per row");
+    assert!(!t.xtwinops, "[C19] XTWINOPS stays disabled");
+    assert_inv(&t);
+    kv_cover!(pre.alt, "RIS from the alternate screen");
+    kv_cover!(pre.app_keys, "RIS with application cursor keys");
+    kv_cover!(pre.other_rows != rows, "RIS with a stale parked screen");
+    kv_end!();
+    forget(t);
+    forget(f);
 }
 
 include!("terminal_gen.rs");
